@@ -174,6 +174,7 @@ mod verif_c20_cmd {
     vassert!(parse_command(s) == Some(want), "C20.cmd.plain");
     kani::cover!(true, "reached");
   }
+  #[cfg(verif_thorough)]
   #[kani::proof]
   #[kani::unwind(26)]
   fn c20_cmd_c() { plain(0); }
@@ -210,6 +211,7 @@ mod verif_c20_cmd {
   #[kani::proof]
   #[kani::unwind(26)]
   fn c20_cmd_break_addr() { with_addr(0); }
+  #[cfg(verif_thorough)]
   #[kani::proof]
   #[kani::unwind(26)]
   fn c20_cmd_p_addr() { with_addr(1); }
